@@ -28,11 +28,41 @@ fn tier_of(s: &str) -> Tier {
     }
 }
 
+/// A run's result must not depend on what ran before it in the same process. std hands every new
+/// `HashMap` the thread's hash keys *plus a counter*, so code that creates maps lazily (first use of
+/// the library's `lazy_static` regexes, `regex`'s per-thread-stack cache pool) would shift the keys
+/// seen by a run depending on process history. Warm every lazy global and every pool stack up
+/// before the first run (c18child deliberately does not: it tests contended first use).
+fn warm_up() {
+    let n: usize = std::env::var("VERIF_WARM").ok().and_then(|s| s.parse().ok()).unwrap_or(40);
+    for _ in 0..n {
+        let _ = std::thread::spawn(|| {
+            let (mut m, node, acct, now) = direct::known_fixture();
+            // a non-root path in standard mode, so that the multi-slash regex is used as well
+            m.logical.segs = vec![b"warm".to_vec(), b"up".to_vec()];
+            m.quirks.path_prefix = Some(b"/x//..".to_vec());
+            let mut t = tape::Tape::replay(vec![]);
+            let wire = world::render(&m, &mut t, &world::RenderOpts {
+                noise: 0,
+                s3: false,
+                permute_pairs: false,
+            });
+            if let Ok(req) = wire.to_request() {
+                let _ = libi::validate_simple(req, &node, now, &[acct], &mut t);
+            }
+        })
+        .join();
+    }
+}
+
 fn main() {
     let args: Vec<String> = std::env::args().collect();
     libi::install_panic_hook();
     logger::install();
     let profiles = profiles::registry();
+    if !matches!(args.get(1).map(|s| s.as_str()), Some("c18child")) {
+        warm_up();
+    }
     let code = match args.get(1).map(|s| s.as_str()) {
         Some("check") => {
             let id = args.get(2).cloned().unwrap_or_default();
@@ -65,6 +95,28 @@ fn main() {
             } else {
                 1
             }
+        }
+        Some("digest") => {
+            let p = profiles.iter().find(|p| p.id == args[2]).expect("profile");
+            driver::digest_main(p, tier_of(&args[3]), args[4].parse().unwrap(), args[5].parse().unwrap(), args[6].parse().unwrap())
+        }
+        Some("selftest") => driver::selftest_main(&profiles, args.get(2).and_then(|s| s.parse().ok()).unwrap_or(300)),
+        Some("pooldbg") => {
+            // diagnostic: does one validation consume the same number of RandomState counters in
+            // every fresh thread? (prints the map-order fingerprint seen *after* a validation)
+            for k in 0..40 {
+                let fp = hashseed::incarnation(42, || {
+                    let (mut m, node, acct, now) = direct::known_fixture();
+                    m.logical.segs = vec![b"warm".to_vec(), b"up".to_vec()];
+                    let mut t = tape::Tape::replay(vec![]);
+                    let wire = world::render(&m, &mut t, &world::RenderOpts { noise: 0, s3: false, permute_pairs: false });
+                    let _ = libi::validate_simple(wire.to_request().unwrap(), &node, now, &[acct], &mut t);
+                    hashseed::order_fingerprint()
+                })
+                .unwrap();
+                println!("{} {}", k, fp);
+            }
+            0
         }
         Some("c18child") => direct2::c18_child_main(),
         Some("anchor") => match anchor::anchor() {
